@@ -107,7 +107,7 @@ def check_readonly(ctx, fb, cfg):
         else:
             ctx.ok("R18-2", inst, "%d repository fns, %d external callees reachable; none on the shared-state deny list; statics: %s; receiver %s" % (
                 len(seen), len(ext), sorted(s.split("::")[-1] for s in statics), selfty or "-"), loc(it))
-    ctx.floor("read-only-entry-points[%s]" % cfg, k, 9)
+    ctx.floor("read-only-entry-points[%s]" % cfg, k, 7 if cfg == "stateless" else 9)
     # receivers: the read-only API must be callable through a shared reference
     need_shared = ["verify", "verify_rln_proof", "verify_with_roots", "get_root", "get_leaf", "get_proof", "get_empty_leaves_indices", "get_metadata"]
     # (RLN::leaves_set takes &mut self by design: exclusive access is enforced by the borrow checker, which is not a race)
